@@ -24,6 +24,11 @@ def gen_src(e):
     return gen.src(e)
 
 
+class TopSeq(list):
+    """statements of a behaviour that is not ONE compound statement but a sequence of them (printed without outer braces)"""
+    bare = True
+
+
 class Unmodelled(Exception):
     pass
 
@@ -398,6 +403,19 @@ class Elab:
     def program(self, tree) -> list:
         if tree.data != "fbody":
             raise Unmodelled("not a function body")
+        if len(tree.children) > 1:
+            # a behaviour that is a SEQUENCE of compound statements (`{} { if (...) {...} }`, the start rule is stmt*):
+            # each member is kept as its own block, the program is printed without an enclosing pair of braces
+            out = TopSeq()
+            for c in tree.children:
+                if is_tree(c) and c.data == "compound_stmt" and not c.children:
+                    out.append(("raw", "{}"))
+                else:
+                    body = []
+                    for it in self.flatten_items(c):
+                        body += self.stmt(it)
+                    out.append(("block", self.drop_jump_semicolons(body)))
+            return out
         out = []
         for c in tree.children:
             for it in self.flatten_items(c):
